@@ -2,7 +2,7 @@ import sys
 from functools import lru_cache
 from random import randint
 from time import time
-from typing import Any, Dict, Iterable, List, Optional, Type, Union
+from typing import Any, Dict, Iterable, List, Optional, Tuple, Type, Union
 
 from . import errors
 from .color import Color, ColorParseError, ColorSystem, blend_rgb
@@ -110,7 +110,8 @@ class Style:
         overline: bool = None,
         link: str = None,
     ):
-        self._ansi: Optional[str] = None
+        # cached ANSI codes, as a (color system, codes) pair
+        self._ansi: Optional[Tuple[ColorSystem, str]] = None
         self._style_definition: Optional[str] = None
 
         def _make_color(color: Union[Color, str]) -> Color:
@@ -282,7 +283,7 @@ class Style:
         Returns:
             str: String containing codes.
         """
-        if self._ansi is None:
+        if self._ansi is None or self._ansi[0] != color_system:
             sgr: List[str] = []
             append = sgr.append
             _style_map = self._style_map
@@ -312,8 +313,8 @@ class Style:
                         foreground=False
                     )
                 )
-            self._ansi = ";".join(sgr)
-        return self._ansi
+            self._ansi = (color_system, ";".join(sgr))
+        return self._ansi[1]
 
     @classmethod
     @lru_cache(maxsize=1024)
